@@ -70,3 +70,7 @@ add("C17", "other",
     "Bounded SMT + bounded symbolic execution: every stored entry (thorough: all 2x349,724; quick: all 2-input entries and a seed-rotated 1/20 stride) is decoded and z3 decides on real-evaluator terms that it computes its key (batched), with well-formedness/basis/normal-form predicates; NormalizationInfo is executed on a fully symbolic table by the forking executor (all paths, z3-proven coverage) and denormalize is shown to give back the table; end-to-end look-ups incl. don't-cares compare with direct look-ups of every completion.",
     "Trusted: CPython, z3, proxies. Bounded: normalisation shapes up to 3x4/1x8 (quick), +2x8, 4x4 (thorough); tables <=3 inputs; <=4 don't-cares.",
     "bounded SMT on decoded entries; forking symbolic execution of the normalisation over a symbolic table", "DESIGN.md §3 C17")
+add("C11", "translation_validation",
+    "Forking symbolic execution of the real bench line parser on symbolic text (identifier characters and operator letter case are z3 integers; all paths explored, coverage proven by z3; per path z3 decides that the recorded gate is what the text denotes), plus translation validation: format->parse round trip (string and file) and parsed-circuit-vs-text denotation (z3 equivalence with the reference semantics) over a circuit family, a keyword-heavy label alphabet and textual layouts.",
+    "Trusted: CPython, z3, SymStr proxy (vlib/symstr.py), reference semantics. Bounded: labels <=7 symbolic characters, operands <=2; circuits <=4 inputs/<=8 gates; 3-6 layouts each. CrossHair was tried for (a) and stayed inconclusive (150 s); it is not used.",
+    "forking symbolic execution over symbolic strings + z3 equivalence of parsed circuits", "DESIGN.md §3 C11")
